@@ -91,6 +91,18 @@ func zzNewGenesis(nholders, nvals int, gov *ctrlertypes.GovParams) *zzGenesis {
 	return g
 }
 
+// zzNewGenesisBanded is zzNewGenesis with validator powers drawn from disjoint
+// descending bands (so that the ranking of validators is the same for every
+// value and sorting does not fork); still symbolic inside each band.
+func zzNewGenesisBanded(nholders, nvals int, gov *ctrlertypes.GovParams) *zzGenesis {
+	g := zzNewGenesis(nholders, 0, gov)
+	for i := 0; i < nvals; i++ {
+		lo := int64(nvals-i) << 40
+		g.powers = append(g.powers, zzverif.NondetI64In("genesis.power", lo, lo+(1<<20)))
+	}
+	return g
+}
+
 // start creates an application in a fresh directory and runs Info + InitChain.
 func (g *zzGenesis) start() *zzNode {
 	n := &zzNode{dir: zzverif.TempDir(), gov: g.gov, nvals: len(g.powers)}
